@@ -219,7 +219,7 @@ func checkBuilt(s spec, queryLists [][][]byte, corr bool, family string) *gcs.Fi
 				}
 			}
 		}
-		if corr && singles && len(qs) <= 70 && (li+n+int(s.P))%3 == 0 {
+		if corr && singles && len(qs) <= 70 && (li+n+int(s.P))%5 == 0 {
 			addQueryCase(f.N(), f.P(), s.M, fb, s.Key, qs, a, family)
 		}
 	}
@@ -313,6 +313,9 @@ func mShapes(p uint8, r *vh.RNG) []uint64 {
 	if p >= 1 {
 		ms = append(ms, two/2+1)
 	}
+	if p >= 26 {
+		ms = append(ms, two*2, two*5+3) // quotients of several units next to P = 32 (deltas >= 2^32)
+	}
 	return ms
 }
 
@@ -330,7 +333,7 @@ func familySmall(rng *vh.RNG) {
 			for mi, m := range ms {
 				// every N for the monitors, a rotating subset for the Coq cases
 				for ni, n := range ns {
-					corr := !cfg.Search && round == 0 && (ni+p+mi)%len(ns) == (mi*3)%len(ns) && mi < 3
+					corr := !cfg.Search && round == 0 && (ni+p+mi)%len(ns) == (mi*3)%len(ns) && (mi < 3 || p >= 26 && mi >= len(ms)-2)
 					if cfg.Search || round > 0 || corr || (p+ni)%3 == 0 {
 						s := spec{P: uint8(p), M: m, Key: randKey(r)}
 						for i := 0; i < n; i++ {
@@ -358,6 +361,89 @@ func familySmall(rng *vh.RNG) {
 			if gref.Modulus(uint64(n), m) < 1<<20 {
 				checkBuilt(s, queriesFor(r, s.Data, true), true, "wrap")
 			}
+		}
+	}
+}
+
+// values that reduce to exactly 0, coinciding reduced values, duplicates fed directly to BuildGCSFilter
+func familyZero(rng *vh.RNG) {
+	r := rng.Fork("zero")
+	be := func(v uint32) []byte { return []byte{byte(v >> 24), byte(v >> 16), byte(v >> 8), byte(v)} }
+	// (a) the repository's brute-forced zero-hash vector, queried below and above N/2
+	{
+		s := spec{P: 19, M: 784931, Key: [16]byte{0x25, 0x28, 0x0d, 0x25, 0x26, 0xe1, 0xd3, 0xc7, 0xa5, 0x71, 0x85, 0x34, 0x92, 0xa5, 0x7e, 0x68}}
+		for i := uint32(0); i < 12; i++ {
+			s.Data = append(s.Data, be(i))
+		}
+		target := be(16060032)
+		s.Data = append(s.Data, target)
+		if gref.Value(s.Key, gref.Modulus(13, s.M), target) == 0 {
+			rep.Count("zerohash", "repo-vector", true)
+		}
+		seven := [][]byte{target}
+		for i := uint32(100); len(seven) < 7; i++ {
+			seven = append(seven, be(i))
+		}
+		checkBuilt(s, [][][]byte{{target}, seven, {be(50), target, be(51)}}, !cfg.Search, "zero")
+		s2 := s
+		s2.Data = append(append([][]byte{}, s.Data[:12]...), be(12)) // the same without the zero-hash member
+		checkBuilt(s2, [][][]byte{{target}, seven}, !cfg.Search, "zero")
+	}
+	// (b) tiny ranges: every value is 0 or coincides with another
+	for i := 0; i < cfg.Scale(120, 600); i++ {
+		n := 1 + r.Intn(10)
+		s := spec{P: uint8(r.Intn(9)), M: uint64(r.Intn(4)), Key: randKey(r)}
+		if i%7 == 0 {
+			s.P = uint8(r.Intn(33))
+		}
+		for k := 0; k < n; k++ {
+			s.Data = append(s.Data, randItem(r))
+		}
+		if n > 1 && i%3 == 0 {
+			s.Data[n-1] = s.Data[0]
+		}
+		checkBuilt(s, queriesFor(r, s.Data, true), !cfg.Search && i%6 == 0, "zero")
+	}
+	// (c) brute-forced zero-hash members under ordinary parameters
+	for i := 0; i < cfg.Scale(12, 60); i++ {
+		p := uint8(r.Intn(14))
+		n := 2 + r.Intn(14)
+		s := spec{P: p, M: uint64(1)<<p + uint64(r.Intn(3)), Key: randKey(r)}
+		F := gref.Modulus(uint64(n), s.M)
+		var zero []byte
+		for t := 0; t < 400000 && zero == nil; t++ {
+			it := gref.LE64(r.U64())
+			if gref.Value(s.Key, F, it) == 0 {
+				zero = it
+			}
+		}
+		if zero == nil {
+			continue
+		}
+		rep.Count("zerohash", fmt.Sprintf("z%d", i), true)
+		s.Data = append(s.Data, zero)
+		for len(s.Data) < n {
+			s.Data = append(s.Data, randItem(r))
+		}
+		ql := queriesFor(r, s.Data, true)
+		big := [][]byte{zero}
+		for len(big) < n {
+			big = append(big, append([]byte{0xEE}, r.Bytes(10)...))
+		}
+		ql = append(ql, [][]byte{zero}, big)
+		checkBuilt(s, ql, !cfg.Search && i < 6, "zero")
+	}
+	// (d) large P with M >= 2^P: deltas of 2^32 and more with a non-zero quotient
+	for _, c := range []struct {
+		p uint8
+		m uint64
+	}{{32, 1 << 33}, {31, 1 << 33}, {28, 1 << 32}, {32, 1<<34 + 5}, {30, 1 << 32}} {
+		for _, n := range []int{1, 2, 7, 20, 45} {
+			s := spec{P: c.p, M: c.m, Key: randKey(r)}
+			for k := 0; k < n; k++ {
+				s.Data = append(s.Data, randItem(r))
+			}
+			checkBuilt(s, queriesFor(r, s.Data, true), !cfg.Search && n == 7, "largeP")
 		}
 	}
 }
@@ -688,12 +774,12 @@ func familyAlloc(rng *vh.RNG) {
 		go func() { outb, cerr = cmd.Output(); close(done) }()
 		select {
 		case <-done:
-		case <-time.After(40 * time.Second):
+		case <-time.After(150 * time.Second):
 			if cmd.Process != nil {
 				cmd.Process.Kill()
 			}
 			<-done
-			cerr = fmt.Errorf("timeout after 40 s")
+			cerr = fmt.Errorf("timeout after 150 s")
 		}
 		bound := uint64(len(pr.body)) * 8 / (uint64(pr.p) + 1)
 		replay := map[string]interface{}{"call": "gcs.FromNBytes(P, M, nbytes) then HashMatchAny(zero key, [010203])", "P": pr.p, "M": 784931, "nbytes": ps.NBytes,
@@ -810,6 +896,7 @@ func main() {
 		runReplay(cfg.Replay)
 	} else {
 		familySmall(rng)
+		familyZero(rng)
 		familyBig(rng)
 		familyCollision(rng)
 		familyAlloc(rng)
